@@ -692,7 +692,7 @@ class CorrectCounter:
         return False
 
 
-def judge_family(ctx, label, mu, seed_orbit, options, result, counter, idx, tol, lyap_default=False):
+def judge_family(ctx, label, mu, seed_orbit, options, result, counter, idx, tol, lyap_default=False, monotone=None):
     from ..oracles import cr3bp
     fam = list(result.family)
     n = len(fam)
@@ -755,6 +755,8 @@ def judge_family(ctx, label, mu, seed_orbit, options, result, counter, idx, tol,
             chk(T[k - 1] is not None and Tk != T[k - 1], "E:member period differs from its predecessor's", member=k)
             d = P[k] - P[k - 1]
             nzs = step != 0
+            if monotone is not None:        # components the corrector solves for move as the family dictates, not as the step hints
+                nzs = nzs & np.isin(np.arange(len(step)), monotone)
             chk(np.all(np.sign(d[nzs]) == np.sign(step[nzs])), "E:continuation parameter advances monotonically in the step direction",
                 member=k, advance=d)
     out = [bool(np.any(p < target[0][:len(idx)]) or np.any(p > target[1][:len(idx)])) for p in P]
@@ -765,6 +767,10 @@ def judge_family(ctx, label, mu, seed_orbit, options, result, counter, idx, tol,
               lambda: wit(outside=out, first_outside=out.index(True) if any(out) else None), mech)
     if any(out):
         ctx.count("E:families in which a member left the target")
+    # a run may end only because a member left the target, the member limit was reached, or corrections failed
+    ctx.check(n >= options.max_members or out[-1] or result.rejected_count > 0,
+              "E:generation continues while the last member is inside the target, below the member limit, and no correction failed",
+              lambda: wit(outside=out))
     for clause, ok, mech, extra in results:
         ctx.check(ok, clause, (lambda extra=extra: wit(**extra)), mech)
     ctx.sample({"family": label, "members": n, "params": P, "periods": T, "accepted": result.accepted_count,
@@ -800,7 +806,10 @@ def e2e_monitor(ctx):
             ("halo/natural/exit", halo, 0.2, "natural", 0.004, 2.5, 7),
             ("lyapunov/natural/wide", lyap, 0.01, "natural", 0.0005, None, 6),
             ("lyapunov/secant/exit", lyap, 0.01, "secant", 0.0005, 1.05, 7),
-            ("lyapunov/default-config", lyap, 0.01, None, None, None, 5)]
+            ("lyapunov/default-config", lyap, 0.01, None, None, None, 5),
+            # two continuation components listed in NON-ascending index order (z before x): target columns, step components and
+            # reported parameter values all follow the user's order
+            ("halo/natural-2d(Z,X)/exit", halo, 0.2, "natural2d", 0.004, 2.5, 7)]
     if not ctx.quick:
         for j in range(14):
             kind = ("halo", "lyapunov")[j % 2]
@@ -820,6 +829,16 @@ def e2e_monitor(ctx):
             options = seed.continuation_options.merge(max_members=members, max_retries_per_step=3)
             idx = tuple(seed.continuation_config.state_indices)
             lyap_default = True
+        elif stepper == "natural2d":
+            seed.continuation_config = OrbitContinuationConfig(state=(SynodicState.Z, SynodicState.X), stepper="natural")
+            idx = (int(SynodicState.Z.value), int(SynodicState.X.value))
+            z0_, x0_ = x0[idx[0]], x0[idx[1]]
+            s = smag * (np.sign(z0_) if z0_ != 0 else 1.0)
+            lo, hi = sorted((z0_ - 2 * s, z0_ + exit_k * s))
+            # x is solved for by the halo corrector: its step entry is only a predictor hint and its target range is wide
+            options = OrbitContinuationOptions(target=([lo, x0_ - 0.05], [hi, x0_ + 0.05]), step=(s, 1e-5), max_members=members,
+                                               max_retries_per_step=3, step_min=1e-8, step_max=1.0, extra_params=seed.correction_options)
+            lyap_default = False
         else:
             st = SynodicState.Z if label.startswith("halo") else SynodicState.X
             seed.continuation_config = OrbitContinuationConfig(state=st, stepper=stepper)
@@ -834,7 +853,8 @@ def e2e_monitor(ctx):
         tol = float(options.extra_params.base.convergence.tol)
         with CorrectCounter(type(seed)) as counter:
             result = seed.generate(options)
-        judge_family(ctx, label, mu, seed, options, result, counter, idx, tol, lyap_default=lyap_default)
+        judge_family(ctx, label, mu, seed, options, result, counter, idx, tol, lyap_default=lyap_default,
+                     monotone=(0,) if stepper == "natural2d" else None)
 
 
 # ============================================================================ entry points
